@@ -9,7 +9,7 @@ import (
 	"verifharness/internal/core"
 )
 
-var brkToks = []string{"nil", "t", "f", "lt", "le", "lex"}
+var brkToks = []string{"nil", "t", "f", "lt", "le", "lex", "gt", "ge", "xel"}
 
 func genBrk(r *core.Rand) string {
 	switch r.Pick(30, 40, 30) {
@@ -127,6 +127,8 @@ func genGraph(r *core.Rand) core.Case {
 	}
 	pct := []int{0, 15, 35, 50, 70, 90, 100}[r.Intn(7)]
 	malformed := r.Chance(6)
+	mixed := !malformed && r.Chance(25)
+	var late []string
 	a := make(adj, n)
 	for i := range a {
 		a[i] = make([]bool, n)
@@ -147,12 +149,34 @@ func genGraph(r *core.Rand) core.Case {
 				continue
 			}
 			a[i][j], a[j][i] = true, true
+			x, y := i, j
 			if r.Bool() {
-				fmt.Fprintf(&sb, " %d-%d", i, j)
-			} else {
-				fmt.Fprintf(&sb, " %d-%d", j, i)
+				x, y = j, i
+			}
+			if !mixed || r.Chance(50) {
+				fmt.Fprintf(&sb, " %d-%d", x, y)
+				continue
+			}
+			// the same undirected edge through a mixture of AddEdge / AddUndirectedEdge calls
+			switch r.Intn(6) {
+			case 0:
+				fmt.Fprintf(&sb, " %d>%d %d>%d", x, y, y, x)
+			case 1:
+				fmt.Fprintf(&sb, " %d>%d %d-%d", x, y, x, y)
+			case 2:
+				fmt.Fprintf(&sb, " %d>%d %d-%d", x, y, y, x)
+			case 3:
+				fmt.Fprintf(&sb, " %d-%d %d>%d", x, y, x, y)
+			case 4:
+				fmt.Fprintf(&sb, " %d>%d %d>%d %d-%d", x, y, y, x, x, y)
+			default:
+				late = append(late, fmt.Sprintf("%d>%d", y, x)) // the reverse arc comes much later
+				fmt.Fprintf(&sb, " %d>%d", x, y)
 			}
 		}
+	}
+	for i := len(late) - 1; i >= 0; i-- {
+		sb.WriteString(" " + late[i])
 	}
 	// duplicate edges (either orientation): the adjacency maps make them idempotent
 	if r.Chance(20) {
@@ -515,6 +539,16 @@ func corpus() []core.Case {
 		{Lines: []string{"@ C18 graph 5 0-1 0-2 0-3 0-4 1-2 1-3 1-4 2-3 2-4 3-4", "cliques", "bk 4 2 0 1 3"}},
 		{Lines: []string{"@ C18 graph 5 0-1 1-2 2-3 3-4 4-0", "cliques", "bk 0 2 4 1 3", "bkx 0 | 1 | 4", "bkx 0 | 4 1 |"}},
 		{Lines: []string{"@ C18 graph 4 0>1 1-2 3>2", "bk 0 1 2 3", "bk 3 1 0 2"}},
+		// the same undirected graph through mixed AddEdge / AddUndirectedEdge orders on one pair
+		{Lines: []string{"@ C18 graph 3 0>1 0-1 1-2", "cliques", "bk 0 1 2", "bk 2 1 0"}},
+		{Lines: []string{"@ C18 graph 3 1>0 0-1 1-2", "cliques", "bk 1 0 2"}},
+		{Lines: []string{"@ C18 graph 3 0-1 0>1 1>0 2>1 1>2", "cliques", "bk 2 0 1"}},
+		{Lines: []string{"@ C18 graph 4 0>1 2>3 1-2 3>2 1>0 0-3 3>0", "cliques", "bk 3 2 1 0"}},
+		{Lines: []string{"@ C18 graph 2 0>1 0-1", "cliques"}},
+		{Lines: []string{"@ C18 graph 2 0>1 1-0", "cliques"}},
+		// ties where the LONGER candidate must replace (prefer-more / lexicographically larger)
+		{Lines: []string{"@ C18 dp 2 2 1 1 1 1 3 3 1 1 2 2", "knap 5 gt", "knap 6 ge", "knap 7 xel", "knap 4 gt", "knap 9 t", "solv 6 1 gt 3", "solv 5 0 xel 4"}},
+		{Lines: []string{"@ C18 dp 4 4 1 1 1 1 1 1 1 1 2 2 2 2", "knap 4 gt", "knap 8 gt", "knap 6 ge", "knap 12 gt"}},
 		// duplicate edges in both orientations; only isolated vertices; one edge + isolated vertices
 		{Lines: []string{"@ C18 graph 4 0-1 1-0 0-1 2-3 3-2", "cliques", "bk 3 2 1 0"}},
 		{Lines: []string{"@ C18 graph 3", "cliques", "bk 2 0 1", "bkx | 0 1 2 |", "bkx 1 | |"}},
@@ -593,7 +627,7 @@ func exhaustiveItems(ctx *core.Ctx) (int, string, []core.ExtraFailure) {
 	if ctx.Tier == "thorough" {
 		maxN = 5
 	}
-	brks := []string{"nil", "t", "f", "h1", "lt"}
+	brks := []string{"nil", "t", "f", "h1", "lt", "gt"}
 	evals := 0
 	var fails []core.ExtraFailure
 	var rec func(cur []int)
